@@ -65,6 +65,7 @@ type closureInfo struct {
 }
 
 type Gen struct {
+	freeVars map[string]Val // closures: captured variables by name (value = address of the variable)
 	w    *World
 	fn   *ssa.Function
 	fc   *FuncContract
@@ -785,6 +786,12 @@ func (g *Gen) writtenHeaps(blocks map[*ssa.BasicBlock]bool) (map[string]string, 
 				}
 			case *ssa.MakeClosure, *ssa.MakeInterface, *ssa.MakeChan, *ssa.Range:
 				names["$alloc"] = "Int"
+			case *ssa.Next:
+				if r, ok := x.Iter.(*ssa.Range); ok {
+					if mt, ok := r.X.Type().Underlying().(*types.Map); ok {
+						names[g.rangeSeenName(r)] = "(Array " + g.scalarSort(mt.Key()) + " Bool)"
+					}
+				}
 			case *ssa.Convert:
 				if isByteSlice(x.Type()) {
 					names["$alloc"] = "Int"
